@@ -56,7 +56,8 @@ def run_batch(args):
         faulthandler.dump_traceback_later(world_timeout, exit=True)
         try:
             t0 = time.perf_counter()
-            case = profile.generate(rng, tier)
+            gi = getattr(profile, 'generate_indexed', None)
+            case = gi(run, rng, tier) if gi is not None else profile.generate(rng, tier)
             t1 = time.perf_counter()
             res = _exec_checked(profile, case, known)
             t2 = time.perf_counter()
